@@ -301,6 +301,9 @@ theorem inv_step (s : Ledger) (c : Call) (hi : Inv s) : Inv (step false s c).1 :
       | mdata a => exact inv_release s h _ hl hi
       | bundle b a => exact hi
       | buffer c a => exact hi
+  | payloadNull => exact inv_addObj s _ _ (fun _ => rfl) hi
+  | bufferFreeNull => exact hi
+  | bundleFreeNull => exact hi
 
 theorem inv_run (cs : List Call) (s : Ledger) (hi : Inv s) : Inv (run false cs s).1 := by
   induction cs generalizing s with
@@ -332,6 +335,11 @@ def protocol : List Call :=
 
 example : (run false protocol init).1.objs.length = 0 ∧ (run false protocol init).1.live = [] := by
   decide +kernel
+/-- the null-pointer corner of the protocol: `bundle_payload(NULL)` hands out a Buffer with null data
+    that `buffer_free` releases completely; freeing NULL is a no-op -/
+theorem null_payload_balanced :
+    (run false [.payloadNull, .bufferFreeNull, .bundleFreeNull, .bufferFree 0] init).1.live = [] := by decide
+
 /-- on the pinned tree the same protocol leaves 4 allocations live (3 buffer data, 1 metadata struct) -/
 theorem pinned_leaks : (run true protocol init).1.objs.length = 0 ∧ (run true protocol init).1.live.length = 4 := by
   decide +kernel
